@@ -7,6 +7,7 @@ cd "$(dirname "$(readlink -f "$0")")" || exit 2
 export VERIF_ROOT="${VERIF_ROOT:-$PWD}"
 export GOFLAGS=-mod=mod GOPROXY=off GOSUMDB=off GOTOOLCHAIN=local
 export VERIF_TIER="${2:-quick}"
+mkdir -p bin
 if ! go build -o bin/check ./cmd/check 2> bin/build.err; then
   cat bin/build.err >&2
   echo "BUILD-ERROR: the harness does not build against /repo's working tree" >&2
